@@ -558,6 +558,10 @@ class Interface(object):
                             self.add_class(c, add_parent=False)
                             self.deps[c].add(cls)
                     else:
+                        # polymorphic protocols still refer to it by prefix:
+                        # allocate that now and not while processing a request
+                        self.get_namespace_prefix(child_ns)
+
                         logger.debug("    not adding %r to %r because it would "
                             "cause circular imports because %r extends %r and "
                             "they don't have the same namespace", child_ns,
